@@ -31,6 +31,7 @@ use crate::{
     config::Config,
     connection::ConnectionInner,
     error::ConnectionError,
+    proto::varint::VarInt,
     quic::{self},
     shared_state::SharedState,
 };
@@ -72,7 +73,9 @@ impl Builder {
     ///
     /// [header size constraints]: https://www.rfc-editor.org/rfc/rfc9114.html#name-header-size-constraints
     pub fn max_field_section_size(&mut self, value: u64) -> &mut Self {
-        self.config.settings.max_field_section_size = value;
+        // SETTINGS values travel as QUIC varints: a limit above 2^62 - 1 cannot be announced
+        // (and is indistinguishable from "unlimited"), so it is clamped to the largest one that can.
+        self.config.settings.max_field_section_size = value.min(VarInt::MAX.into_inner());
         self
     }
 
@@ -106,7 +109,8 @@ impl Builder {
 
     /// Limits the maximum number of WebTransport sessions
     pub fn max_webtransport_sessions(&mut self, value: u64) -> &mut Self {
-        self.config.settings.max_webtransport_sessions = value;
+        // sent as a QUIC varint: clamp to the largest representable value
+        self.config.settings.max_webtransport_sessions = value.min(VarInt::MAX.into_inner());
         self
     }
 
